@@ -57,8 +57,10 @@ def dec_opt(w):
 def enc_case(c):
     groups = ",".join(hx(g[0]) + ":" + hx(g[1]) + (":L" if len(g) > 2 and g[2] else "") for g in c["groups"]) if c["groups"] else "."
     pos = "0" if not c["pos"] else ("1" if c.get("posamt") is None else "a%d" % c["posamt"])
-    if c.get("hist"):
-        pos += ":" + c["hist"]
+    if c.get("hist") or c.get("fmt"):
+        pos += ":" + (c.get("hist") or "")
+    if c.get("fmt"):
+        pos += ":" + c["fmt"]
     return " ".join(["U", hx(c["app"]), hx(c["about"]), hx(c["defname"]), pos, hx(c["posname"]),
                      hx(c["prior"]), groups] + [enc_opt(o) for o in c["opts"]])
 
@@ -66,9 +68,9 @@ def enc_case(c):
 def dec_case(line):
     w = line.split(" ")
     groups = [] if w[7] == "." else [(unhx(g.split(":")[0]), unhx(g.split(":")[1]), g.endswith(":L")) for g in w[7].split(",")]
-    pos, _, hist = w[4].partition(":")
+    pos, hist, fmt = (w[4].split(":") + ["", ""])[:3]
     posamt = int(pos[1:]) if pos.startswith("a") else None
-    return dict(app=unhx(w[1]), about=unhx(w[2]), defname=unhx(w[3]), pos=pos not in ("0", "a0"), posamt=posamt, hist=hist,
+    return dict(app=unhx(w[1]), about=unhx(w[2]), defname=unhx(w[3]), pos=pos not in ("0", "a0"), posamt=posamt, hist=hist, fmt=fmt,
                 posname=unhx(w[5]), prior=unhx(w[6]),
                 groups=groups, opts=[dec_opt(x) for x in w[8:]])
 
